@@ -124,12 +124,12 @@ MaskSet(v) == Range(v)
 SetSingle(o, n, v) ==
     LET differs(existingTruthy, same) == existingTruthy /\ ~same IN
     CASE n = "Cryptographic Algorithm" ->
-            IF ~HasAlg(o.type) THEN [err |-> "Internal", o |-> o]
+            IF ~HasAlg(o.type) THEN [err |-> "InvalidField", o |-> o]
             ELSE IF differs(o.alg # "NA", o.alg = v) THEN [err |-> "InvalidField", o |-> o]
             ELSE IF o.alg # "NA" THEN [err |-> "", o |-> o]
             ELSE [err |-> "", o |-> [o EXCEPT !.alg = v]]
       [] n = "Cryptographic Length" ->
-            IF ~HasAlg(o.type) THEN [err |-> "Internal", o |-> o]
+            IF ~HasAlg(o.type) THEN [err |-> "InvalidField", o |-> o]
             ELSE IF differs(o.len # 0, o.len = v) THEN [err |-> "InvalidField", o |-> o]
             ELSE IF o.len # 0 THEN [err |-> "", o |-> o]
             ELSE [err |-> "", o |-> [o EXCEPT !.len = v]]
@@ -229,7 +229,7 @@ H_Register(st, req, p) ==
     ELSE IF ~p.hasobj THEN Fail(st, "InvalidField")
     ELSE LET t == Tmpl(p.attrs, req.ver) IN
     IF t.err # "" THEN Fail(st, t.err)
-    ELSE IF p.obj.wrapped \/ p.otype = "SplitKey" THEN Unmodelled(st)
+    ELSE IF p.obj.wrapped THEN Unmodelled(st)
     \* a symmetric key whose stated length does not match its value is refused
     ELSE IF p.otype = "SymmetricKey" /\ p.obj.len # 8 * p.obj.vlen THEN Fail(st, "InvalidField")
     ELSE LET base == [NewObj(p.otype, req.user, req.now) EXCEPT
@@ -346,7 +346,7 @@ Dedup(s) == DedupFrom(s, 1, <<>>)
 H_GetAttributes(st, req, p) ==
     LET l == Load(st, Ident(req), p.uid, "GetAttributes") IN
     IF ~l.ok THEN NotFound(st, l)
-    ELSE LET names == IF Len(p.names) = 0 THEN AllRuleNames ELSE p.names IN
+    ELSE LET names == IF Len(p.names) = 0 THEN AllRuleNames ELSE Dedup(p.names) IN
          [Ok(st, <<l.u>>) EXCEPT !.attrs = AttrsOfNames(st.objs[l.u], l.u, names, 1, req.ver)]
 
 H_GetAttributeList(st, req, p) ==
@@ -410,11 +410,12 @@ H_MAC(st, req, p) ==
 
 \* one filter against one object: "match" / "nomatch" / "skip" / "date" / an error reason
 FilterOne(o, u, f) ==
-    IF ~HasRule(f.name) THEN "Internal"
+    \* an attribute without a rule set applies to no object; an object without a value for
+    \* the attribute does not match
+    IF ~HasRule(f.name) THEN "nomatch"
     ELSE IF ~AttrApplicable(f.name, o.type) THEN "nomatch"
-    ELSE IF ReadRaises(o, f.name) THEN "Internal"
     ELSE LET a == AttrVal(o, u, f.name) IN
-    IF a.absent THEN "skip"
+    IF a.absent THEN "nomatch"
     ELSE CASE f.name = "Application Specific Information" -> IF \E i \in DOMAIN a.v : a.v[i] = f.v THEN "match" ELSE "nomatch"
            [] f.name = "Object Group" -> IF f.v \in Range(a.v) THEN "match" ELSE "nomatch"
            [] f.name = "Name" -> IF f.v \in Range(a.v) THEN "match" ELSE "nomatch"
@@ -537,7 +538,7 @@ H_Modify1x(st, req, p) ==
     IF ~HasRule(n) THEN Fail(st, "ItemNotFound")      \* see KNOWN/fixed: unknown names
     ELSE IF ~AttrModifiable(n) THEN Fail(st, "PermissionDenied")
     ELSE IF AttrMulti(n)
-         THEN IF n \notin ListAttrs THEN Unmodelled(st)
+         THEN IF n \notin ListAttrs THEN Fail(st, "ItemNotFound")     \* the server stores no instance
               ELSE LET i == IF p.attr.idx = -1 THEN 0 ELSE p.attr.idx IN
                    IF i >= 0 /\ i < InstCount(o, n)
                    THEN LET o2 == SetAt(o, n, i, p.attr.v) IN
@@ -588,7 +589,7 @@ H_Delete1x(st, req, p) ==
     ELSE LET i == IF p.idx = -99 THEN 0 ELSE p.idx
              o == st.objs[l.u]
              existing == IF HasRule(p.name) THEN AttrsFor(o, l.u, p.name, req.ver) ELSE <<>> IN
-         IF Len(existing) > 0 /\ i > 0 /\ i >= Len(existing) THEN Fail(st, "ItemNotFound")
+         IF Len(existing) > 0 /\ i # 0 /\ ~(i >= 0 /\ i < Len(existing)) THEN Fail(st, "ItemNotFound")
          ELSE LET r == DeleteFrom(st, l.u, p.name, "index", i, 0) IN
               IF r.status # "Success" THEN r
               ELSE [r EXCEPT !.attrs = IF Len(existing) > 0 THEN <<existing[IF i = 0 THEN 1 ELSE i + 1]>> ELSE <<>>]
@@ -613,8 +614,9 @@ SortVersionsDesc(S) == IF S = {} THEN <<>>
                        ELSE LET m == CHOOSE x \in S : \A y \in S : x >= y IN <<m>> \o SortVersionsDesc(S \ {m})
 H_DiscoverVersions(st, req, p) ==
     [Ok(st, <<>>) EXCEPT !.attrs =
+        \* the server's order of preference (newest first), whatever order the client used
         IF Len(p.versions) = 0 THEN VersionsDescending
-        ELSE SelectSeq(p.versions, LAMBDA v : v \in SupportedVersions)]
+        ELSE SelectSeq(VersionsDescending, LAMBDA v : v \in Range(p.versions))]
 
 --------------------------------------------------------------------------
 (* dispatch, batch, request *)
